@@ -36,6 +36,8 @@ def check(run, views, tier):
                 run.anchor_lost("R-GUARD", r)
         bodies = parse_cone | inspect_cone
         n_fn, counts = gr.r_guard(run, F, T, bodies)
+        from .c15 import check_alloc
+        check_alloc(run, F)          # abort by memory exhaustion: constant pre-allocations per token stay within budget
         run.floor("R-GUARD", n_fn, 30, "functions in the parse/inspect cones")
         run.floor("R-GUARD", counts.get("buffer-read", 0), 19, "fixed-width buffer reads")
         run.floor("R-GUARD", counts.get("vec-index", 0), 1, "guarded Vec::remove")
